@@ -17,7 +17,11 @@ def sym_bytes(ip, n, hint, nonzero=True):
     out = []
     for i in range(n):
         b = ip.fresh(8, '%s%d' % (hint, i))
-        ip.assume(z3.And(b.v != 0, z3.ULT(b.v, 128)) if nonzero else z3.ULT(b.v, 128))
+        if getattr(ip, 'lossy_invalid', False):
+            # text in another client_encoding: besides ASCII, bytes that are never valid UTF-8
+            ip.assume(z3.And(b.v != 0, z3.Or(z3.ULT(b.v, 128), b.v == 0xC0, b.v == 0xC1, z3.UGE(b.v, 0xF5))))
+        else:
+            ip.assume(z3.And(b.v != 0, z3.ULT(b.v, 128)) if nonzero else z3.ULT(b.v, 128))
         out.append(b)
     return out
 
@@ -60,11 +64,12 @@ def expect_hash_collision():
 
 
 # ------------------------------------------------------------------------------------------------ O1 codecs
-def o1_parse(chk, prog, nl, ql, nt, newl):
-    name = 'O1-parse-n%d-q%d-t%d-new%d' % (nl, ql, nt, newl)
+def o1_parse(chk, prog, nl, ql, nt, newl, nonutf8=False):
+    name = 'O1-parse-n%d-q%d-t%d-new%d%s' % (nl, ql, nt, newl, '-nonutf8' if nonutf8 else '')
     ob = chk.begin(name, 'Parse decode -> rename -> encode: output = original with only the statement name and length field changed '
-                   '(name %d bytes, query %d bytes, %d parameter types, new name %d bytes; contents symbolic)' % (nl, ql, nt, newl),
-                   {'name_len': nl, 'query_len': ql, 'param_types': nt, 'new_name_len': newl})
+                   '(name %d bytes, query %d bytes, %d parameter types, new name %d bytes; contents symbolic%s)' % (nl, ql, nt, newl,
+                   ', the QUERY TEXT may contain bytes that are not UTF-8 -- text in another client_encoding' if nonutf8 else ''),
+                   {'name_len': nl, 'query_len': ql, 'param_types': nt, 'new_name_len': newl, 'non_utf8_text': nonutf8})
     dec = [f for f in prog.lookup('<Parse as TryFrom<&BytesMut>>::try_from')]
     enc = [f for f in prog.lookup('<BytesMut as TryFrom<Parse>>::try_from')]
     getn = prog.lookup('Parse::get_name')
@@ -73,10 +78,14 @@ def o1_parse(chk, prog, nl, ql, nt, newl):
     ip = chk.interp(prog, name)
 
     def harness(ip_):
+        ip_.lossy_invalid = False
         nm = sym_bytes(ip_, nl, 'name')
+        ip_.lossy_invalid = nonutf8
         q = sym_bytes(ip_, ql, 'query')
+        ip_.lossy_invalid = False
         tys = [ip_.fresh(32, 'ty%d' % i) for i in range(nt)]
         new = sym_bytes(ip_, newl, 'new')
+        ip_.lossy_invalid = nonutf8
         msg = wire.parse_msg(nm, q, tys)
         want = wire.parse_msg(new, q, tys)
 
@@ -108,7 +117,17 @@ def o1_parse(chk, prog, nl, ql, nt, newl):
         out = items(ip_, payload(e, 'Ok')[0])
         m = ip_.model_for(z3.Not(bytes_eq(out, want)))
         if m is not None:
-            rep(m, 'C08/O1/parse/roundtrip', 'rewritten Parse differs from the original in more than name and length')
+            key, what = 'C08/O1/parse/roundtrip', 'rewritten Parse differs from the original in more than name and length'
+            if nonutf8:
+                # is the ONLY difference that bytes of the query text which are not UTF-8 were replaced by U+FFFD (lossy decoding)?
+                lq = []
+                for b in q:
+                    lq += [b] if decide(ip_, z3.ULT(b.z(), 128)) else [BV(8, 0xEF), BV(8, 0xBF), BV(8, 0xBD)]
+                if len(lq) != len(q) and ip_.model_for(z3.Not(bytes_eq(out, wire.parse_msg(new, lq, tys)))) is None:
+                    key += '/non-utf8-text-replaced'
+                    what = ('the query text of a cached Parse is re-encoded from its lossy UTF-8 decoding: bytes that are not UTF-8 (text in another '
+                            'client_encoding) reach the server as U+FFFD -- the rewritten Parse differs from the original in more than name and length')
+            rep(m, key, what)
         if not ob.samples:
             m2 = ip_.model_for()
             ob.samples.append({'message_hex': wire.to_hex(m2, msg), 'rewritten_hex': wire.to_hex(m2, want)})
@@ -274,7 +293,7 @@ def o2_hash(chk, prog, qa, ta, qb, tb):
 
 
 # ------------------------------------------------------------------------------------------------ O3 server-side LRU
-from checks.serverfam import (fn, install_stats_noops, mk_server, lru, sfield, StreamV, Msg, flag_val, some as _some, none as _none,
+from checks.serverfam import (decide, fn, install_stats_noops, mk_server, lru, sfield, StreamV, Msg, flag_val, some as _some, none as _none,
                               rstring, server_flags)
 from checks.c03 import srv_expect     # registers 'srv_expect'
 
@@ -522,7 +541,7 @@ def main(chk):
         'Parse::get_hash is checked for injectivity of its hasher input (two symbolic statements with equal hasher input must be the '
         'same statement). Counterexamples are replayed through the compiled codecs.')
     chk.assumptions += [
-        'names and queries are ASCII without NUL (String::from_utf8_lossy is the identity there)',
+        'names are ASCII without NUL; query text is ASCII, or (one obligation) ASCII plus bytes that can never occur in UTF-8 (0xC0, 0xC1, 0xF5..0xFF); valid multi-byte sequences are not exercised',
         'SipHash collisions on distinct inputs are outside the claim; only collisions of the hasher INPUT are searched',
         'ordering of synthesised replies, ensure_prepared_statement_is_on_server call sites and cross-client races live in Client::handle: outside',
     ]
